@@ -11,7 +11,7 @@ PROPERTY = "C32"
 LEVEL = "exploration"
 RULE = ("two case families. (a) RunEngineSimulator.simulate_plan on a seeded plan program (2..14 messages over commands "
         "{null, read, set, trigger, wait, open_run, sleep} on named fake objects, logging what every yield receives and "
-        "returning a value) with a seeded handler set (0..6 handlers: command lists, msg_filter None / object name / "
+        "returning a value) with a seeded handler set (0..10 handlers: command lists, msg_filter None / object name / "
         "predicate, results incl. falsy 0, '', False, [], None, index 0 or 'end'); oracle: returned list is exactly the "
         "yielded Msg objects in order, each yield received the result of the highest-priority matching handler (newest "
         "first, 'end' ones last) else None, return_value is the plan's return value. (b) check_limits / check_limits_async "
@@ -95,8 +95,9 @@ def run_case(case):
             n = rng.randint(2, 14)
             script = []
             for k in range(n):
-                cmd = rng.choice(["null", "read", "set", "trigger", "wait", "open_run", "sleep"])
-                obj = rng.choice(objs) if cmd in ("read", "set", "trigger") else None
+                cmd = rng.choice(["null", "read", "set", "trigger", "wait", "open_run", "sleep", "stage", "unstage",
+                                  "checkpoint", "clear_checkpoint", "monitor", "unmonitor"])
+                obj = rng.choice(objs) if cmd in ("read", "set", "trigger", "stage", "unstage", "monitor", "unmonitor") else None
                 kwargs = {"group": rng.choice(["g1", "g2"])} if cmd in ("wait", "set") else {}
                 script.append((cmd, obj, k, kwargs))
             recv = []
@@ -113,9 +114,11 @@ def run_case(case):
 
             sim = RunEngineSimulator()
             model = []   # ordered priority list of (commands, filter kind, filter arg, result)
-            nh = rng.randint(0, 6)
+            nh = rng.randint(0, 10)
             for h in range(nh):
-                cmds = rng.choice([["read"], ["set"], ["null", "wait"], ["trigger", "read", "set"], "read", "wait", ["open_run"]])
+                cmds = rng.choice([["read"], ["set"], ["null", "wait"], ["trigger", "read", "set"], "read", "wait", ["open_run"],
+                                   # plain strings that CONTAIN another command's name
+                                   "unstage", "clear_checkpoint", "unmonitor", ["stage"], ["monitor", "checkpoint"]])
                 fk = rng.choice(["none", "name", "pred"])
                 res = RESULTS[rng.randrange(len(RESULTS))]
                 res = (res, h) if rng.random() < 0.3 else res
